@@ -30,6 +30,11 @@ Definition r_has_key (r : rel) (k : nat) : bool := existsb (fun p => Nat.eqb k (
 Definition r_del_key (r : rel) (k : nat) : rel := filter (fun p => negb (Nat.eqb k (fst p))) r.
 Definition r_del_val (r : rel) (v : nat) : rel := filter (fun p => negb (Nat.eqb v (snd p))) r.
 
+(* token convention of the harness: tokens >= 900 are unhashable python objects *)
+Definition is_unhashable (v : nat) : bool := Nat.leb 900 v.
+Global Arguments is_unhashable : simpl never.
+Definition pair_unhashable (p : pair) : bool := is_unhashable (fst p) || is_unhashable (snd p).
+
 (* ---------------------------------------------------------------------- *)
 (* OneToOne                                                                *)
 (* ---------------------------------------------------------------------- *)
@@ -72,8 +77,20 @@ Inductive o_op :=
 | SSet_ (k v : nat) | SDel (k : nat) | SPop (k : nat) (d : option nat) | SPopitem | SClear
 | SSetdefault (k d : nat) | SUpdate (kvs : list pair) | SIor (kvs : list pair) | SGet (k : nat).
 
+(* an operation handed an unhashable key (or a value that would become a key of
+   the inverse) raises TypeError and changes nothing; update is all-or-nothing *)
+Definition o_op_rejects (r : rel) (op : o_op) : bool :=
+  match op with
+  | SSet_ k v => is_unhashable k || is_unhashable v
+  | SDel k | SPop k _ | SGet k => is_unhashable k
+  | SSetdefault k d => is_unhashable k || (negb (r_has_key r k) && is_unhashable d)
+  | SUpdate kvs | SIor kvs => existsb pair_unhashable kvs
+  | SPopitem | SClear => false
+  end.
+
 (* r --op--> r' with result res, on one-to-one relations compared as sets *)
 Definition o_op_ok (r : rel) (op : o_op) (res : sres) (r' : rel) : bool :=
+  if o_op_rejects r op then sres_is res (SRaise TypeError) && same_set r' r else
   match op with
   | SSet_ k v => sres_is res (SOk SNone) && same_set r' (r_set r k v)
   | SDel k =>
@@ -139,6 +156,10 @@ Definition o_built_from (kvs : list pair) (w : oview) : bool :=
 Definition o_hop_ok (before : list oview) (hop : o_hop) (res : sres) (after : list oview) : bool :=
   match hop with
   | SNew uniq kvs =>
+      if existsb (fun p => is_unhashable (fst p)) kvs ||
+         existsb (fun p => is_unhashable (snd p)) (r_dict kvs)      (* a key, or a value that survives in dict(pairs) *)
+      then sres_is res (SRaise TypeError) && list_eqb oview_eqb before after
+      else
       if uniq && negb (injective (r_dict kvs))
       then sres_is res (SRaise ValueError) && list_eqb oview_eqb before after
       else
@@ -290,7 +311,6 @@ Definition m_hop_ok (before : list mview) (hop : m_hop) (res : sres) (after : li
 (* FrozenDict                                                              *)
 (* ---------------------------------------------------------------------- *)
 Definition FrozenHashErr := OtherExn 1.
-Definition is_unhashable (v : nat) : bool := Nat.leb 900 v.     (* token convention of the harness *)
 
 Inductive f_res :=
 | FOkNone | FOkTok (n : nat) | FOkHash (h : Z)
